@@ -43,6 +43,11 @@ def check_fallback(ctx, cfg, rule="fallback-structure"):
                             clo_ok = all(isinstance(g, tuple) and g[0] == "at" and g[1].split(".")[:2] == w[1].split(".")[:2] for g, w in zip(a, want)) and len(a) == len(want)
                 ok = pref_ok and recv_ok and clo_ok
                 why = "preferred first=%s, or_else on its result=%s, closure asks the fallback with the same choice=%s" % (pref_ok, recv_ok, clo_ok)
+            if not ok and len(evs) == 2 and evs[0][1] == meth and evs[1][1] == meth:
+                ok, why = match_shape(ctx, cfg, fn, meth, evs, extra_args)
+                if ok:
+                    ctx.ob(rule, "FallbackResolver::" + m, True, "%s: match preferred.%s(choice) { Some(x) => Some(x), None => fallback.%s(choice) }" % (m, m, m), where(fn), cfg)
+                    continue
             # the or_else result is what is returned
             ret_ok = any(t["k"] == "call" and t["dest"]["local"] == 0 and (t["callee"].get("def") or "").endswith("Option::<T>::or_else") for b, t in fn.calls())
             ctx.ob(rule, "FallbackResolver::" + m, ok and ret_ok,
@@ -65,6 +70,55 @@ def check_fallback(ctx, cfg, rule="fallback-structure"):
         ok = e[0] == "agg" and e[3] == (("arg", 1), ("arg", 2))
     ctx.ob(rule, "FallbackResolver::new", ok, "new(preferred, fallback) stores its arguments in that order" if ok else "FallbackResolver::new swaps or drops its arguments", where(fn), cfg)
     return n
+
+
+def match_shape(ctx, cfg, fn, meth, evs, extra_args):
+    """the explicit form: the preferred member is asked first; its Some(x) is returned as Some(x); only on None is the
+    fallback member asked, with the same choice, and its answer returned"""
+    from ..expr import strip_bb
+    from .common import find_call
+    G = ctx.guards(cfg, fn)
+    R = G.R
+    c1, c2 = evs[0], evs[1]
+    if c1[2] != (("at", "p1.preferred"),) + extra_args:
+        return False, "the first member asked is %s, not self.preferred" % (c1[2][:1],)
+    if c2[2] != (("at", "p1.fallback"),) + extra_args:
+        return False, "the second member asked is %s with %s, not self.fallback with the same choice" % (c2[2][:1], c2[2][1:])
+    b1, b2 = c1[4], c2[4]
+    if not fn.dominates(b1, b2):
+        return False, "the fallback is not asked after the preferred member"
+    e1 = strip_bb(R.call_expr(b1, fn.blocks[b1]["term"]))
+    # discriminant 0 of Option is None (reported by the guard analysis as the 0-edge of the call result)
+    none_edge = any(f[0] == "ok" and strip_bb(f[1]) == e1 for f in G.before_term(b2))
+    if not none_edge:
+        return False, "the fallback is asked on a path where the preferred member did not answer None"
+    # returns
+    okret = 0
+    for (bi, si, st) in fn.defs().get(0, []):
+        if si == "term":
+            if bi == b2:
+                okret += 1
+                continue
+            return False, "the value returned is produced by another call"
+        rv = st["rv"]
+        if rv["k"] == "aggregate" and rv.get("variant_name") == "Some":
+            pay = strip_bb(R.op(rv["ops"][0]))
+            c = find_call(pay, (meth.split("::")[-1],))
+            some_edge = any(f[0] == "err" and strip_bb(f[1]) == e1 for f in G.at_entry(bi))
+            if c is not None and strip_bb(c) == e1 and some_edge:
+                okret += 1
+                continue
+            return False, "Some(..) returned is not the preferred member's answer"
+        if rv["k"] == "use" and rv["op"].get("k") in ("move", "copy"):
+            x = strip_bb(R.op(rv["op"]))
+            if x[0] == "call" and x == strip_bb(R.call_expr(b2, fn.blocks[b2]["term"])):
+                okret += 1
+                continue
+            if x == e1:
+                okret += 1
+                continue
+        return False, "return value not understood"
+    return okret >= 2, "returns: %d recognised" % okret
 
 
 def check_builder_resolver(ctx, cfg, rule="builder-resolver"):
